@@ -8,6 +8,7 @@ import json
 import os
 import time
 from typing import Any
+from typing import IO
 import uuid
 import warnings
 
@@ -103,10 +104,33 @@ class JournalFileBackend(BaseJournalBackend):
             what_to_write = (
                 "\n".join([json.dumps(log, separators=(",", ":")) for log in logs]) + "\n"
             )
-            with open(self._file_path, "ab") as f:
+            with open(self._file_path, "ab+") as f:
+                self._discard_incomplete_record(f)
                 f.write(what_to_write.encode("utf-8"))
                 f.flush()
                 os.fsync(f.fileno())
+
+    @staticmethod
+    def _discard_incomplete_record(f: IO[bytes]) -> None:
+        # A process killed in the middle of a write leaves a record without the trailing
+        # line separator behind. The record was never acknowledged, so it is discarded.
+        # Otherwise the next record would be glued to it and no reader could decode the line.
+        # This method must be called while holding the lock.
+        end = f.seek(0, os.SEEK_END)
+        if end == 0:
+            return
+        f.seek(end - 1)
+        if f.read(1) == b"\n":
+            return
+        while end > 0:
+            start = max(0, end - 4096)
+            f.seek(start)
+            newline_index = f.read(end - start).rfind(b"\n")
+            if newline_index >= 0:
+                end = start + newline_index + 1
+                break
+            end = start
+        f.truncate(end)
 
 
 class BaseJournalFileLock(abc.ABC):
